@@ -155,8 +155,8 @@ def gen_db(rng, isa):
 def gen_mem(rng, isa):
     """(text, info) with info = base, index, scale, disp (int/None/'sym'), pre, post(value or None)"""
     if isa == "x86":
-        base = rng.choice(["rax", "rbx", "rcx", "rsi", "r8"])
-        index = rng.choice([None, None, "rdx", "r9"])
+        base = rng.choice(["rax", "rbx", "rcx", "rsi", "r8", "rip"])
+        index = rng.choice([None, None, "rdx", "r9"]) if base != "rip" else None
         scale = rng.choice([1, 2, 4, 8]) if index else 1
         disp = rng.choice([None, 0, 8, 8, 16, -8, 24])
         t = ("" if disp is None else str(disp)) + "(%" + base + ((",%" + index + ("," + str(scale) if scale != 1 or rng.random() < 0.3 else "")) if index else "") + ")"
